@@ -170,3 +170,50 @@ PROPS["C13"]["jobs"]["thorough"].append({"name": "wint", "bin": "scalar", "engin
 PROPS["C13"]["technique"] += "; wrapped intervals: exhaustive enumeration of all (start,end) pairs, operators and members for small widths against uint64 arithmetic in the harness"
 PROPS["C13"]["level_text"] += " Wrapped intervals: every (start,end) pair, top and bottom at widths 1..3 (thorough: 1..5) x every operator x every member of both operands; Trunc/ZExt/SExt/negation likewise."
 PROPS["C13"]["rule"] += "; wint: a case is one first wrapped interval (all second operands, operators and members enumerated inside)"
+
+ENGINES[-2]["serves_properties"] = ["C01", "C02", "C03", "C04", "C05"]
+ENGINES[-2]["path"] += ", e_pool.cc"
+
+_POOL_ASSUME = [
+    "witness sets contain only states that must be described by the value by construction (concrete mirror of every operation, harness arithmetic on __int128); a failure is a real counterexample",
+    "documented refusals (not implemented, safe_i64 overflow, rename precondition) discard the case; for plain int64 DBM weights abstract magnitudes are kept below 2^40",
+    "membership through the public API only (DESIGN 3.5)",
+]
+PROPS["C03"] = {
+    "technique": "shadow witness sets: random histories of abstract-domain operations mirrored on concrete states; after every operation each witness must be inside the result according to the domain's own answers (at, [], exports, entails, point meet)",
+    "level_text": "histories of 10-60 operations (assign, 13 arithmetic/bitwise operators with variable and constant operands, +=, select, boolean operations, forget, project, rename, expand, join, meet, widening, narrowing, copies) over a pool of 5 values, for every functional domain and random domain parameters; every result is checked against 3-8 witness states. Held on the histories run.",
+    "level_note": "arrays/regions are exercised by C14/C15; witnesses are few per value (3-8), so a violation needs a witness near the unsound spot - constraints are drawn around witnesses to make that likely",
+    "rule": "a case is one history over one domain + parameter setting; non-trivial = at least 4 distinct operation kinds and at least one membership check against a non-top value; distinct = hash of history text + configuration",
+    "jobs": {
+        "quick": [{"name": "pool-core", "bin": "crabv", "engine": "pool", "cases": 3500, "params": {"dom": "core"}},
+                  {"name": "pool-all", "bin": "crabv", "engine": "pool", "cases": 4500, "params": {"dom": "any"}}],
+        "thorough": [{"name": "pool-core", "bin": "crabv", "engine": "pool", "cases": 100000, "params": {"dom": "core"}},
+                     {"name": "pool-all", "bin": "crabv", "engine": "pool", "cases": 250000, "params": {"dom": "any"}}],
+    },
+    "floor": {"quick": 5000, "thorough": 200000},
+    "counter_floors": {"quick": {"membership_checks_nontop": 200000, "leq_true_checked_against_witnesses": 15000, "meets_with_common_witness": 1500}},
+    "assumptions": _POOL_ASSUME,
+}
+PROPS["C04"] = dict(PROPS["C03"])
+PROPS["C04"].update({
+    "technique": "shadow witness sets over operation histories: a 'yes' of the inclusion test obliges every witness of the left operand to be inside the right operand; manufactured pairs (value vs. strengthened copy excluding a witness); mandatory answers (A<=copy(A), bottom<=A, A<=top); join/meet results against witness unions/intersections",
+    "level_text": "rides on the C03 histories: after each step random pairs are compared; a yes answer is refuted by any witness of the left operand that the right operand excludes; pairs are manufactured so that wrong yes answers are catchable; make_top/make_bottom/set_to_top/set_to_bottom are checked against is_top/is_bottom. Held on the pairs compared.",
+})
+PROPS["C05"] = {
+    "technique": "bounded-progress restatement decided in logical steps: widening chains counted in strict increases against a budget, fixpoint-tick budget (hook) on every analysis run, plus witness-set soundness of widening/narrowing results",
+    "level_text": "termination cannot be decided by finite runs; restated as (a) a widening chain fed 1200 adversarial values makes at most B strict increases (B from the number of droppable constraints, capped at 1000; observed maximum 5), (b) every forward analysis of the C01 workload finishes within 20000 fixpoint ticks (observed maximum < 700), (c) widening contains both arguments and narrowing of a decreasing pair keeps its second argument (witness sets). Held on the chains and analyses run.",
+    "level_note": "budgets are logical steps, never wall-clock; a watchdog timeout is reported as a hang of this property only after it repeats alone",
+    "rule": "chain: a case is one chain (domain, parameters, threshold set, growth style), non-trivial = at least 2 strict increases; pool: as C03 restricted to widening/narrowing steps; fwd: as C01",
+    "hang_is_violation": True,
+    "jobs": {
+        "quick": [{"name": "chain", "bin": "crabv", "engine": "chain", "cases": 2200, "params": {"dom": "any"}},
+                  {"name": "pool-all", "bin": "crabv", "engine": "pool", "cases": 3000, "params": {"dom": "any"}},
+                  {"name": "fwd-all", "bin": "crabv", "engine": "fwd", "cases": 1500, "params": {"dom": "any"}}],
+        "thorough": [{"name": "chain", "bin": "crabv", "engine": "chain", "cases": 40000, "params": {"dom": "any"}},
+                     {"name": "pool-all", "bin": "crabv", "engine": "pool", "cases": 100000, "params": {"dom": "any"}},
+                     {"name": "fwd-all", "bin": "crabv", "engine": "fwd", "cases": 60000, "params": {"dom": "any"}}],
+    },
+    "floor": {"quick": 2500, "thorough": 60000},
+    "counter_floors": {"quick": {"chain_steps": 1000000, "op:widening": 1000, "op:narrowing": 500}},
+    "assumptions": _POOL_ASSUME,
+}
